@@ -435,15 +435,15 @@ func (m *monitor) checkRowLimit(format string, rs *resultSet, full, lim decoded,
 }
 
 // checkIPC compares a decoded Arrow IPC stream with the truth (decimal columns: int64/float64 rule).
-func (m *monitor) checkIPC(rs *resultSet, schema *arrow.Schema, recs []arrow.Record, derr error, expectRows int) {
+func (m *monitor) checkIPC(fmtName string, rs *resultSet, schema *arrow.Schema, recs []arrow.Record, derr error, expectRows int) {
 	c := m.c
-	replayHead := "format=ipc source=" + short(rs.desc, 600)
+	replayHead := "format=" + fmtName + " source=" + short(rs.desc, 600)
 	if derr != nil || schema == nil {
 		key := "envelope"
 		if len(rs.cols) == 1 {
 			key = rs.cols[0].key
 		}
-		c.Fail("ipc-malformed:"+key, fmt.Sprintf("arrow IPC stream does not decode: %v", derr), replayHead)
+		c.Fail(fmtName+"-malformed:"+key, fmt.Sprintf("arrow IPC stream does not decode: %v", derr), replayHead)
 		return
 	}
 	want := make([]string, len(rs.cols))
@@ -455,7 +455,7 @@ func (m *monitor) checkIPC(rs *resultSet, schema *arrow.Schema, recs []arrow.Rec
 		got[j] = schema.Field(j).Name
 	}
 	if !sameNames(want, got) {
-		c.Fail("column-names-differ:ipc", fmt.Sprintf("columns %q decoded as %q", want, got), replayHead)
+		c.Fail("column-names-differ:"+fmtName, fmt.Sprintf("columns %q decoded as %q", want, got), replayHead)
 		return
 	}
 	n := 0
@@ -463,7 +463,7 @@ func (m *monitor) checkIPC(rs *resultSet, schema *arrow.Schema, recs []arrow.Rec
 		n += int(r.NumRows())
 	}
 	if n != expectRows {
-		c.Fail("row-count-differs:ipc", fmt.Sprintf("expected %d rows, stream carries %d", expectRows, n), replayHead)
+		c.Fail("row-count-differs:"+fmtName, fmt.Sprintf("expected %d rows, stream carries %d", expectRows, n), replayHead)
 	}
 	for j, ct := range rs.cols {
 		i := 0
@@ -473,7 +473,7 @@ func (m *monitor) checkIPC(rs *resultSet, schema *arrow.Schema, recs []arrow.Rec
 				t := ct.cells[i]
 				g := truthCell(a, k)
 				if t.null != g.null {
-					c.Fail("null-position-differs:ipc:"+ct.key, fmt.Sprintf("row %d col %q: truth %s decoded %s", i, ct.name, canon(t), canon(g)),
+					c.Fail("null-position-differs:"+fmtName+":"+ct.key, fmt.Sprintf("row %d col %q: truth %s decoded %s", i, ct.name, canon(t), canon(g)),
 						fmt.Sprintf("%s type=%s value=%s", replayHead, ct.key, short(canon(t), 300)))
 					continue
 				}
@@ -503,7 +503,7 @@ func (m *monitor) checkIPC(rs *resultSet, schema *arrow.Schema, recs []arrow.Rec
 					why = fmt.Sprintf("truth %s decoded %s", short(canon(t), 150), short(canon(g), 150))
 				}
 				if why != "" {
-					c.Fail("ipc-cell-differs:"+ct.key, fmt.Sprintf("row %d col %q: %s", i, ct.name, why),
+					c.Fail(fmtName+"-cell-differs:"+ct.key, fmt.Sprintf("row %d col %q: %s", i, ct.name, why),
 						fmt.Sprintf("%s type=%s value=%s", replayHead, ct.key, short(canon(t), 300)))
 				}
 			}
